@@ -90,6 +90,24 @@ func (a *Act) builtin(st *State, f *ssa.Builtin, args []Val, c *ssa.CallCommon, 
 		return r
 	case "close":
 		ch := args[0]
+		a.chanTypeFact(st, ch)
+		// site close <channel expression suffix>: assertion at this close (the separate-file form of an inline assert)
+		if a.con != nil && !a.inlined && vc.quiet == 0 && a.curCall != nil && len(a.curCall.Args) == 1 {
+			prov := provenance(a.curCall.Args[0], 0)
+			for _, c := range a.con.Sites {
+				if c.Kind != "site-close" || !strings.HasSuffix(prov, c.LoopFn) {
+					continue
+				}
+				env := a.specEnv(st)
+				a.siteN++
+				name := fmt.Sprintf("%s/site close %s.%s#%d", a.prefix, c.LoopFn, c.Label, a.siteN)
+				if v, err := env.evalBool(c.Expr); err != nil {
+					vc.oblige(name, "site", a.props, c.Line, st.guard, "false", "contract error: "+err.Error()+" in: "+c.Text)
+				} else {
+					vc.oblige(name, "site", a.props, a.pos(pos)+" ["+c.Line+"]", st.guard, v, "when "+c.LoopFn+" is closed: "+c.Text)
+				}
+			}
+		}
 		k, hs := "G:chanclosed", "(Array Int Bool)"
 		vc.oblige(a.oblName("nopanic-close"), "nopanic", a.props, a.pos(pos), st.guard, and(not(eq(ch.S, "0")), not(sel(vc.getHeap(st, k, hs), ch.S))), "close of nil or already closed channel")
 		vc.setHeap(st, k, hs, store(vc.getHeap(st, k, hs), ch.S, "true"))
@@ -351,6 +369,7 @@ func (a *Act) selectOp(st *State, x *ssa.Select) Val {
 	tup := []Val{{S: idx, Sort: sInt, T: types.Typ[types.Int]}, {S: recvOk, Sort: sBool, T: types.Typ[types.Bool]}}
 	for i, s := range x.States {
 		ch := a.val(st, s.Chan)
+		a.chanTypeFact(st, ch)
 		chosen := eq(idx, fmt.Sprint(i))
 		// nil channels are never ready
 		vc.assume(st.guard, implies(chosen, not(eq(ch.S, "0"))))
@@ -362,6 +381,8 @@ func (a *Act) selectOp(st *State, x *ssa.Select) Val {
 		} else {
 			et := ch.T.Underlying().(*types.Chan).Elem()
 			v := a.freshVal("selrecv", et)
+			// a receive that yields no value (ok == false) happens on a closed channel only
+			vc.assume(st.guard, implies(and(chosen, not(recvOk)), sel(vc.getHeap(st, "G:chanclosed", "(Array Int Bool)"), ch.S)))
 			if ci := a.chanInvFor(s.Chan); ci != nil {
 				env := a.specEnv(st)
 				env.vars[ci.Var] = v
